@@ -544,6 +544,65 @@ func C13(c *ev.Ctx) {
 	// (3) concurrent creators and readers on DirFs, interleaved at the hooks
 	acConcurrency(c)
 
+	// (3b) AtomicCreate next to files that are open for appending (the log-and-manifest pattern), both implementations:
+	// the created file holds exactly its data, now and after later appends to the other file, and vice versa
+	for ti, tn := range []string{"mem/method", "dir/method"} {
+		for _, order := range []string{"create-first", "atomic-first", "create-append-first"} {
+			t := openFsTarget(tn, c.Scratch, 70+ti)
+			bad := ""
+			func() {
+				defer func() {
+					if e := recover(); e != nil {
+						bad = fmt.Sprintf("panic: %v", e)
+					}
+				}()
+				t.fs.Mkdir("lg")
+				data := acData('m', 300)
+				var lf filesys.File
+				var ok bool
+				switch order {
+				case "create-first":
+					lf, ok = t.fs.Create("lg", "log")
+					t.fs.AtomicCreate("lg", "manifest", data)
+				case "atomic-first":
+					t.fs.AtomicCreate("lg", "manifest", data)
+					lf, ok = t.fs.Create("lg", "log")
+				default:
+					lf, ok = t.fs.Create("lg", "log")
+					t.fs.Append(lf, []byte("first"))
+					t.fs.AtomicCreate("lg", "manifest", data)
+				}
+				if !ok {
+					bad = "Create of a fresh name failed"
+					return
+				}
+				t.fs.Append(lf, []byte("entry-1"))
+				t.fs.Append(lf, []byte("entry-2"))
+				wantLog := "entry-1entry-2"
+				if order == "create-append-first" {
+					wantLog = "first" + wantLog
+				}
+				rd := func(n string) []byte {
+					f := t.fs.Open("lg", n)
+					b := t.fs.ReadAt(f, 0, 10000)
+					t.fs.Close(f)
+					return b
+				}
+				if got := rd("manifest"); !bytes.Equal(got, data) {
+					bad = fmt.Sprintf("lg/manifest holds %d bytes %q..., AtomicCreate installed %d bytes: appends to lg/log show through it", len(got), string(got[:min(16, len(got))]), len(data))
+				} else if got := rd("log"); string(got) != wantLog {
+					bad = fmt.Sprintf("lg/log holds %q, the appends were %q", string(got[:min(40, len(got))]), wantLog)
+				}
+				t.fs.Close(lf)
+			}()
+			t.close()
+			evaluations++
+			if bad != "" {
+				c.Violation("atomiccreate.next-to-open-file."+tn[:3], fmt.Sprintf("target %s, %s: a file opened with Create (and appended to afterwards) next to a file installed with AtomicCreate: %s", tn, order, bad), nil)
+			}
+		}
+	}
+
 	// (4) MemFs: concurrent AtomicCreate (barrier-released bursts) must be linearizable: every creator
 	// reads back exactly its own data (same machinery as C14: histories validated by FsLinTrace)
 	acMemBursts(c, dir)
